@@ -156,7 +156,7 @@ def discharge(ctx, timeout_ms, cvc5_timeout_s):
                         rec['reason'] = 'counterexample only without input well-formedness; re-check unknown'
                     v, m, backend = v2, m2, b2
                 active = [(fid, r) for fid, r in ctx.regions.items() if fid in ctx.known_ids]
-                if v == 'sat' and active and not tainted:
+                if v == 'sat' and active:
                     outside = [z3.Not(r) for _, r in active]
                     v3, m3, b3, dt3 = solve.check(pc + list(ctx.lazy) + outside + [z3.Not(goal)], timeout_ms,
                                                   cvc5_timeout_s=cvc5_timeout_s, extract=extract)
@@ -186,16 +186,16 @@ def discharge(ctx, timeout_ms, cvc5_timeout_s):
                 if v == 'unsat':
                     rec['status'] = 'discharged'
                 elif v == 'sat':
-                    if tainted:
-                        rec['status'] = 'undecided'
-                        rec['reason'] = 'counterexample on a path kept after an unknown feasibility check'
+                    # (a path kept after an unknown feasibility check: the counter-model satisfies the whole path condition,
+                    # so it is itself the witness that the path is feasible)
+                    rec['status'] = 'failed'
+                    if isinstance(m, dict):
+                        rec['model'] = m
                     else:
-                        rec['status'] = 'failed'
-                        if isinstance(m, dict):
-                            rec['model'] = m
-                        else:
-                            rec['model'] = None
-                            rec['reason'] = 'sat by cvc5 (no model extracted)'
+                        rec['model'] = None
+                        rec['reason'] = 'sat by cvc5 (no model extracted)'
+                    if tainted:
+                        rec['note'] = 'path kept after an unknown feasibility check; feasibility witnessed by the counter-model'
                 else:
                     rec['status'] = 'undecided'
                     rec.setdefault('reason', 'solver unknown/timeout')
